@@ -177,9 +177,35 @@ def run_case(case, obs) -> None:  # noqa: C901, PLR0915
                 viol("correlated:law-not-invariant", f"A S A^T + B B^T differs from S by {e:.3e} for coefficient {coeff}")
         cclass = "0" if coeff == 0 else ("1" if coeff == 1 else "interior")
         obs.token(spec["sys"], mk, cclass)
+    # the refresh coefficient is a public attribute: a transition whose coefficient is reassigned must behave like a
+    # transition constructed with the new value
+    c1, c2 = float(rng.uniform(0.05, 0.95)), float(rng.uniform(0.05, 0.95))
+    tr = CorrelatedMomentumTransition(s, mom_resample_coeff=c1)
+    tr.sample(m.state(q, p), ScriptedNormal([z]))
+    tr.mom_resample_coeff = c2
+    got, _ = tr.sample(m.state(q, p), ScriptedNormal([z]))
+    want, _ = CorrelatedMomentumTransition(s, mom_resample_coeff=c2).sample(m.state(q, p), ScriptedNormal([z]))
+    obs.count("correlated_checks")
+    if not np.array_equal(np.asarray(got.mom), np.asarray(want.mom)):
+        viol("correlated:stale-coefficient", f"after reassigning mom_resample_coeff {c1} -> {c2} the update differs from a fresh transition's")
+    # metric reassigned on a live system (what the metric adapters do): fresh momenta must follow the new metric
+    if spec["sys"] in zoo.TRACTABLE:
+        new_arg, new_dense = zoo.const_metric(str(rng.choice(["diag", "dense", "scaled", "chol_lower", "eig", "lowrank_minus"])), dim, rng)
+        s.metric = new_arg
+        m.metric_dense = new_dense
+        sig2 = new_dense
+        if m.constrained:
+            pr2 = m.ref_projector(q)
+            sig2 = pr2 @ new_dense @ pr2.T
+        l2 = np.stack([draw(ident[i])[0] for i in range(dim)], axis=1)
+        e = rel(l2 @ l2.T, sig2)
+        obs.count("L_matrices")
+        if e > TOL:
+            viol("sample_momentum:covariance-after-metric-reassignment", f"after system.metric was reassigned L L^T differs from the new metric by {e:.3e}")
     # momentum None -> full refresh for any coefficient
     from mici.states import ChainState
 
+    ref_ind, _ = draw(z)  # (the metric may have been reassigned above)
     st_none = ChainState(pos=q.copy(), mom=None, dir=1)
     out_state, _ = CorrelatedMomentumTransition(s, 0.3).sample(st_none, ScriptedNormal([z]))
     if not np.array_equal(np.asarray(out_state.mom), ref_ind):
